@@ -57,6 +57,7 @@ RULE = ('programs = the table in this driver (var/call/return/if/unless/in/'
 ASSUMPTIONS = ['C-style formats other than "s" exist in EPFS only and are '
                'not part of the equivalence']
 CASE_CPU_SECONDS = 120.0
+CASE_CPU_SECONDS_QUICK = 10.0
 
 MODS = ['html_quote', 'url_quote', 'url_quote_plus', 'url_unquote',
         'url_unquote_plus', 'newline_to_br', 'lower', 'upper', 'capitalize',
